@@ -36,7 +36,83 @@ def killer_funcs(P):
     if not fs:
         raise AnalysisError("no ResourcePool method calls Container.kill: the OOM killer was not found")
     from ..util import inline_helpers
-    return [inline_helpers(P, m) for m in sorted(fs, key=lambda m: m.node.lineno)]   # scoring / ranking extracted into a private helper is looked through
+    return [_decorated(P, inline_helpers(P, m)) for m in sorted(fs, key=lambda m: m.node.lineno)]   # scoring / ranking extracted into a private helper is looked through
+
+
+def _key_expr(P, f, key: ast.expr, arg: ast.expr):
+    """the value key(arg) as one expression, for a key that is a local function / lambda / method whose body is (name = expr)* return expr"""
+    fn = None
+    if isinstance(key, ast.Lambda) and len(key.args.args) == 1:
+        return norm.Subst({key.args.args[0].arg: arg}).visit(norm.clone(key.body))
+    if isinstance(key, ast.Name):
+        for n in ast.walk(f.node):
+            if isinstance(n, ast.FunctionDef) and n is not f.node and n.name == key.id:
+                fn = n
+        if fn is None and key.id in f.mod.funcs:
+            fn = f.mod.funcs[key.id].node
+        skip = 0
+    elif isinstance(key, ast.Attribute) and isinstance(key.value, ast.Name) and f.cls and key.value.id in ("self", f.cls):
+        cl = f.mod.classes.get(f.cls)
+        if cl and key.attr in cl.methods:
+            fn = cl.methods[key.attr].node
+    if fn is None:
+        return None
+    params = [a.arg for a in fn.args.args]
+    static = any(isinstance(d, ast.Name) and d.id == "staticmethod" for d in fn.decorator_list)
+    if isinstance(key, ast.Attribute) and not static:
+        params = params[1:]
+    if len(params) != 1:
+        return None
+    body = [s_ for s_ in fn.body if not (isinstance(s_, ast.Expr) and isinstance(s_.value, ast.Constant))]
+    if not body or not isinstance(body[-1], ast.Return) or body[-1].value is None:
+        return None
+    loc = {}
+    for st in body[:-1]:
+        if isinstance(st, ast.Assign) and len(st.targets) == 1 and isinstance(st.targets[0], ast.Name) and st.targets[0].id not in loc:
+            loc[st.targets[0].id] = norm.subst(st.value, loc)
+        else:
+            return None
+    return norm.Subst({params[0]: arg}).visit(norm.clone(norm.subst(body[-1].value, loc)))
+
+
+def _decorated(P, f):
+    """`cands.append(c) ... cands.sort(key=score, reverse=..) ... for v in cands` is decorate-sort-undecorate written with a key function;
+    rewrite it to the explicit (score, container) form the rules below are stated on (list.sort computes each key once, up front, and is
+    stable: the two forms order the list identically)."""
+    from ..model import Func
+    for srt in [c for c in own_nodes(f.node) if isinstance(c, ast.Call) and isinstance(c.func, ast.Attribute) and c.func.attr == "sort" and isinstance(c.func.value, ast.Name)]:
+        key = norm.kwarg(srt, "key")
+        if key is None or (isinstance(key, ast.Lambda) and isinstance(key.body, ast.Subscript)):
+            continue
+        L = srt.func.value.id
+        apps = [c for c in calls_named(f, "append") if isinstance(c.func, ast.Attribute) and norm.is_name(c.func.value, L)]
+        loops = [n for n in own_nodes(f.node) if isinstance(n, ast.For) and norm.is_name(n.iter, L) and isinstance(n.target, ast.Name)]
+        if not apps or not all(len(a.args) == 1 and isinstance(a.args[0], ast.Name) for a in apps) or not loops:
+            continue
+        exprs = [_key_expr(P, f, key, a.args[0]) for a in apps]
+        if any(e is None for e in exprs):
+            continue
+        node = norm.clone(f.node)
+        # the clone's nodes correspond to the originals in walk order
+        omap = {id(o): c_ for o, c_ in zip(ast.walk(f.node), ast.walk(node))}
+        for a, e in zip(apps, exprs):
+            ca = omap[id(a)]
+            ca.args = [ast.Tuple(elts=[e, ca.args[0]], ctx=ast.Load())]
+        cs = omap[id(srt)]
+        for kw_ in cs.keywords:
+            if kw_.arg == "key":
+                kw_.value = ast.Lambda(args=ast.arguments(posonlyargs=[], args=[ast.arg(arg="x")], kwonlyargs=[], kw_defaults=[], defaults=[]),
+                                       body=ast.Subscript(value=ast.Name(id="x", ctx=ast.Load()), slice=ast.Constant(0), ctx=ast.Load()))
+        for lp in loops:
+            cl_ = omap[id(lp)]
+            cl_.target = ast.Tuple(elts=[ast.Name(id="_", ctx=ast.Store()), cl_.target], ctx=ast.Store())
+        ast.fix_missing_locations(node)
+        for n in ast.walk(node):
+            for ch in ast.iter_child_nodes(n):
+                ch._parent = n  # type: ignore[attr-defined]
+        node._parent = getattr(f.node, "_parent", None)  # type: ignore[attr-defined]
+        return Func(f.mod, f.qual, node, f.cls)
+    return f
 
 
 def kill_sites(f) -> List[ast.Call]:
@@ -256,6 +332,8 @@ def _run_one(ctx, f, last, pool_level_total):
                     at = norm.atoms_true(lab[1])
                     if any(x in at for x in excl):
                         return False
+                    if any(x[0] == "or" and all(k in excl for k in x[1]) for x in at):
+                        return False      # `if done or unused: continue`: either reason justifies the skip
                 return True
             skip = g.path_avoiding(hid, {hid, g.exit.id}, {g.node_of(ap).id}, edge_ok=edge_ok)
             ctx.ob(4, "K2", "every active container that is still running and uses memory is scored (no one with a higher score can be overlooked)",
